@@ -1,6 +1,8 @@
 \* Reference configuration (the check writes its own per tier, see checks/C30.py)
 SPECIFICATION Spec
 CONSTANTS
+  CodeUnanchored = FALSE
+  CodeNoRange = FALSE
   Zones = {"UTC", "Asia/Kolkata", "America/New_York"}
   AllowTs = TRUE
 INVARIANTS TruthLemma IdealPassOK
